@@ -6,6 +6,9 @@
 //!   C12.wbytes <bdd> <script>              => same
 //!   C12.rtext  <orig bdd|~> <hex> <script> => <ok|err|panic> <bdd|~> <events consumed> <sizes asked by std, one per read call>
 //!   C12.rbytes <orig bdd|~> <hex> <script> => same
+//!   C12.huge   <par|cnt> <p1> <p2> <wscript> <rscript> <failpos> => <size> <built> then for bytes and for text:
+//!              <ok|panic>:<len>:<fnv of to_bytes/to_string>  <kind>:<equal>:<nodes>:<fnv of re-read nodes> (from_bytes/from_string)
+//!              <kind>:<len>:<fnv of the sink> (chunked writer)  <kind>:<equal>:<nodes>:<fnv> (chunked reader over the sink); <eeee>
 //!   C12.big    <n> <k> <seed>              => <size> <bytes len> <text len> <flags>   (all comparisons byte-exact inside Rust)
 //!   C12.wschars                            => every code point with char::is_whitespace
 //!   C12.parse  <u16|u32> <hex of the str>  => ok:<value> | err
@@ -24,12 +27,24 @@ fn kind<T, E>(r: &Option<Result<T, E>>) -> &'static str {
 }
 fn flag(b: bool) -> String { s(if b { "1" } else { "0" }) }
 
+/// Every case is executed under a guard: a panic of the harness itself (only possible in the unguarded
+/// construction of a value through the library's own constructors) is the observation `harness-panic`,
+/// never the death of the generator.
 pub fn run(key: &str, a: &[String], out: &mut Out) {
     out.begin(key, a);
+    if catch(|| run_inner(key, a, &mut *out)).is_none() { out.case(key, a, &[s("harness-panic")]); }
+}
+/// the library refuses (or alters) the harness's own normal text form / node list of the value
+fn build(key: &str, a: &[String], text: &str, out: &mut Out) -> Option<Bdd> {
+    match catch(|| bdd_exact(&parse_triples(text))).flatten() {
+        Some(b) => Some(b),
+        None => { out.case(key, a, &[s("unbuildable")]); None }
+    }
+}
+fn run_inner(key: &str, a: &[String], out: &mut Out) {
     match key {
         "C12.mem" => {
-            let t = parse_triples(&a[0]);
-            let b = bdd_exact(&t).expect("cannot build the Bdd value");
+            let b = match build(key, a, &a[0], out) { Some(b) => b, None => return };
             let text = catch(|| b.to_string());
             let bytes = catch(|| b.to_bytes());
             let rt_text = match &text { None => s("panic"), Some(x) => match catch(|| Bdd::from_string(x)) { None => s("panic"), Some(b2) => flag(b2 == b) } };
@@ -38,8 +53,7 @@ pub fn run(key: &str, a: &[String], out: &mut Out) {
             out.case(key, a, &[text.unwrap_or(s("panic")), bytes.map(|x| hex(&x)).unwrap_or(s("panic")), rt_text, rt_bytes, rt_nodes]);
         }
         "C12.wtext" | "C12.wbytes" => {
-            let t = parse_triples(&a[0]);
-            let b = bdd_exact(&t).expect("cannot build the Bdd value");
+            let b = match build(key, a, &a[0], out) { Some(b) => b, None => return };
             let mut w = SWriter::new(&parse_script(&a[1]));
             let r = catch(|| { let dw: &mut dyn Write = &mut w; if key == "C12.wtext" { b.write_as_string(dw) } else { b.write_as_bytes(dw) } });
             out.case(key, a, &[s(kind(&r)), hex(&w.out), w.sp.to_string(), w.flushes.to_string()]);
@@ -59,7 +73,7 @@ pub fn run(key: &str, a: &[String], out: &mut Out) {
         "C12.big" => {
             let (n, k, seed): (usize, usize, u64) = (a[0].parse().unwrap(), a[1].parse().unwrap(), a[2].parse().unwrap());
             let t = counter_triples(n, k);
-            let b = Bdd::from_nodes(&nodes_of(&t)).expect("counter diagram refused");
+            let b = match catch(|| Bdd::from_nodes(&nodes_of(&t)).ok()).flatten() { Some(b) => b, None => { out.case(key, a, &[s("unbuildable")]); return } };
             let mut rng = Rng64(seed);
             let bytes = b.to_bytes();
             let text = b.to_string().into_bytes();
@@ -95,6 +109,49 @@ pub fn run(key: &str, a: &[String], out: &mut Out) {
             }
             out.case(key, a, &[t.len().to_string(), bytes.len().to_string(), text.len().to_string(), flags]);
         }
+        "C12.huge" => {
+            // family p1 p2 wscript rscript failpos => size built B Br Bw Brc T Tr Tw Trc E
+            let t = family_triples(&a[0], a[1].parse().unwrap(), a[2].parse().unwrap());
+            let b = match catch(|| Bdd::from_nodes(&nodes_of(&t)).ok()).flatten() { Some(b) => b, None => { out.case(key, a, &[s("unbuildable")]); return } };
+            let (wsc, rsc, failpos) = (parse_script(&a[3]), parse_script(&a[4]), a[5].parse::<usize>().unwrap());
+            let mut obs = vec![t.len().to_string(), flag(triples_of(&b) == t)];
+            let reread = |r: Option<Option<Bdd>>| -> String {
+                match r {
+                    None => s("panic:0:0:0"),
+                    Some(None) => s("err:0:0:0"),
+                    Some(Some(b2)) => { let t2 = triples_of(&b2); format!("ok:{}:{}:{:016x}", if b2 == b { 1 } else { 0 }, t2.len(), fnv(&encode_triples(&t2))) }
+                }
+            };
+            let written = |k: &str, data: &[u8]| format!("{}:{}:{:016x}", k, data.len(), fnv(data));
+            for is_text in [false, true] {
+                // in memory: to_bytes / to_string, from_bytes / from_string (these unwrap: an error is a panic)
+                let plain: Option<Vec<u8>> = catch(|| if is_text { b.to_string().into_bytes() } else { b.to_bytes() });
+                obs.push(match &plain { Some(d) => written("ok", d), None => s("panic:0:0") });
+                let empty: Vec<u8> = vec![];
+                let pd: &Vec<u8> = plain.as_ref().unwrap_or(&empty);
+                obs.push(reread(catch(|| Some(if is_text { Bdd::from_string(std::str::from_utf8(pd).unwrap_or("")) } else { Bdd::from_bytes(&mut &pd[..]) }))));
+                // through a chunked writer and, what reached the sink, through a chunked reader
+                let mut w = SWriter::new(&wsc);
+                let wr = catch(|| { let dw: &mut dyn Write = &mut w; if is_text { b.write_as_string(dw).is_ok() } else { b.write_as_bytes(dw).is_ok() } });
+                obs.push(written(match wr { Some(true) => "ok", Some(false) => "err", None => "panic" }, &w.out));
+                let mut rd = SReader::new(&w.out, &rsc);
+                obs.push(reread(catch(|| { let dr: &mut dyn Read = &mut rd; if is_text { Bdd::read_as_string(dr).ok() } else { Bdd::read_as_bytes(dr).ok() } })));
+            }
+            // a hard error as event number `failpos` of the same scripts is returned as Err by all four
+            let mut e = String::new();
+            let with_fail = |sc: &[Ev]| { let mut v: Vec<Ev> = sc.iter().take(failpos).cloned().collect(); v.push(Ev::Fail); v };
+            for is_text in [false, true] {
+                let data: Vec<u8> = if is_text { fmt_triples64(&t).into_bytes() } else { encode_triples(&t) };
+                let mut rd = SReader::new(&data, &with_fail(&rsc));
+                let r = catch(|| { let dr: &mut dyn Read = &mut rd; if is_text { Bdd::read_as_string(dr).is_ok() } else { Bdd::read_as_bytes(dr).is_ok() } });
+                e.push(match r { Some(false) => 'e', Some(true) => 'o', None => 'p' });
+                let mut w = SWriter::new(&with_fail(&wsc));
+                let r = catch(|| { let dw: &mut dyn Write = &mut w; if is_text { b.write_as_string(dw).is_ok() } else { b.write_as_bytes(dw).is_ok() } });
+                e.push(match r { Some(false) => 'e', Some(true) => 'o', None => 'p' });
+            }
+            obs.push(e);
+            out.case(key, a, &obs);
+        }
         "C12.wschars" => {
             let v: Vec<usize> = (0..=0x10FFFFu32).filter_map(char::from_u32).filter(|c| c.is_whitespace()).map(|c| c as usize).collect();
             out.case(key, a, &[fmt_list(&v)]);
@@ -107,6 +164,23 @@ pub fn run(key: &str, a: &[String], out: &mut Out) {
         }
         _ => panic!("unknown key {}", key),
     }
+}
+
+/// Big diagrams built by the harness itself from a few parameters (the Lean driver builds the same arrays):
+///   par n e : parity of n variables, 2n + 1 nodes, preceded by e unreachable copies of `(n-1, 0, 1)`
+///   cnt n k : "exactly k of n" counter diagram
+fn family_triples(fam: &str, p1: usize, p2: usize) -> Vec<(u64, u64, u64)> {
+    if fam == "cnt" { return counter_triples(p1, p2); }
+    let (n, extra) = (p1, p2);
+    let mut t: Vec<(u64, u64, u64)> = vec![(n as u64, 0, 0), (n as u64, 1, 1)];
+    for _ in 0..extra { t.push((n as u64 - 1, 0, 1)); }
+    let (mut ev, mut od) = (0u64, 0u64);
+    for i in (0..n).rev() {
+        let (ne, no) = if i == n - 1 { ((i as u64, 0, 1), (i as u64, 1, 0)) } else { ((i as u64, ev, od), (i as u64, od, ev)) };
+        t.push(ne); ev = t.len() as u64 - 1;
+        if i > 0 { t.push(no); od = t.len() as u64 - 1; }
+    }
+    t
 }
 
 /// "exactly k of n" as a layered counter diagram (valid by level, not necessarily reduced): built by the
@@ -207,10 +281,8 @@ struct Budget { exhaustive_cap: u64, random_per: u64 }
 
 /// all reader/writer cases for one value
 fn cases_for(text: &str, rng: &mut Rng64, out: &mut Out, bud: &Budget, faults: bool) {
-    let b = bdd_exact(&parse_triples(text)).expect("value");
     let tbytes = text.as_bytes().to_vec();
     let bbytes = encode_triples(&parse_triples(text));
-    let _ = &b;
     let orig = s(text);
     run("C12.mem", &[orig.clone()], out);
     for (rk, wk, data) in [("C12.rtext", "C12.wtext", &tbytes), ("C12.rbytes", "C12.wbytes", &bbytes)] {
@@ -266,6 +338,20 @@ fn cases_for(text: &str, rng: &mut Rng64, out: &mut Out, bud: &Budget, faults: b
 pub fn gen(tier: Tier, rng: &mut Rng64, out: &mut Out) {
     let thorough = tier == Tier::Thorough;
     run("C12.wschars", &[], out);
+    // --- big diagrams first: line wrapping / buffering / pointer-width boundaries (4 095…4 098, 8 193, 65 535…65 538 nodes,
+    //     > 65 536 nodes with links >= 65 536). Both round trips with the real library, digests in the observation.
+    let mut huge: Vec<(&str, usize, usize)> = vec![("par", 2047, 0), ("par", 2047, 1), ("par", 2048, 0), ("par", 2048, 1), ("par", 4096, 0),
+        ("par", 127, 0), ("par", 128, 0), ("par", 32767, 0), ("par", 32767, 1), ("par", 32767, 2), ("par", 32767, 3), ("par", 33000, 0), ("cnt", 530, 260), ("cnt", 60, 30)];
+    if thorough { huge.extend_from_slice(&[("par", 8192, 0), ("par", 16384, 1), ("par", 40000, 5), ("par", 65000, 0), ("cnt", 600, 300), ("cnt", 1200, 90), ("cnt", 800, 400)]); }
+    for (fam, p1, p2) in huge {
+        for round in 0..(if thorough { 3 } else { 1 }) {
+            let size_guess = if fam == "par" { 2 * p1 + 1 + p2 } else { (p2 + 1) * (p1 - p2 + 1) } * 12;
+            let wsc = if round == 2 { vec![] } else { random_script(rng, size_guess, 24, true, None) };
+            let rsc = if round == 2 { vec![] } else { random_script(rng, size_guess, 24, true, None) };
+            let failpos = rng.below(4) as usize; // consumed by all four directions whatever the buffer sizes std chooses
+            run("C12.huge", &[s(fam), p1.to_string(), p2.to_string(), fmt_script(&wsc), fmt_script(&rsc), failpos.to_string()], out);
+        }
+    }
     // --- the decimal grammar of str::parse::<u16/u32>
     let toks = ["", "+", "-", "+5", "-5", "++5", "+-5", "5+", "05", "0005", "+0", "-0", "0", "7", "65535", "65536", "+65535", "065535",
         "4294967295", "4294967296", "+4294967295", "42949672950", "000000000000000000000000004294967295", "18446744073709551615",
@@ -320,14 +406,27 @@ pub fn gen(tier: Tier, rng: &mut Rng64, out: &mut Out) {
     // --- diagrams with more than 256 nodes (2-byte pointers) through the full pipeline
     let mids: &[(usize, usize)] = if thorough { &[(50, 25), (40, 7), (64, 32), (30, 15)] } else { &[(36, 18)] };
     for (n, k) in mids {
-        let set = BddVariableSet::new_anonymous(*n as u16);
-        let b = set.mk_sat_exactly_k(*k, &set.variables());
+        let b = match catch(|| { let set = BddVariableSet::new_anonymous(*n as u16); set.mk_sat_exactly_k(*k, &set.variables()) }) { Some(b) => b, None => continue };
         let text = fmt_bdd(&b);
         let (tb, bb) = (text.as_bytes().to_vec(), encode_triples(&triples_of(&b)));
         run("C12.mem", &[text.clone()], out);
         for (rk, wk, data) in [("C12.rtext", "C12.wtext", &tb), ("C12.rbytes", "C12.wbytes", &bb)] {
             for fail in [None, Some(7usize), None] {
                 let sc = fmt_script(&random_script(rng, data.len(), 30, true, fail));
+                run(rk, &[text.clone(), hex(data), sc.clone()], out);
+                run(wk, &[text.clone(), sc], out);
+            }
+        }
+    }
+    // --- the 4 096-node boundary through the full pipeline (the model replays the scripts event by event)
+    for (n, extra) in [(2047usize, 1usize), (2048, 0)] {
+        let t = family_triples("par", n, extra);
+        let text = fmt_triples64(&t);
+        let (tb, bb) = (text.as_bytes().to_vec(), encode_triples(&t));
+        run("C12.mem", &[text.clone()], out);
+        for (rk, wk, data) in [("C12.rtext", "C12.wtext", &tb), ("C12.rbytes", "C12.wbytes", &bb)] {
+            for fail in [None, Some(9usize)] {
+                let sc = fmt_script(&random_script(rng, data.len(), 20, true, fail));
                 run(rk, &[text.clone(), hex(data), sc.clone()], out);
                 run(wk, &[text.clone(), sc], out);
             }
